@@ -7,7 +7,7 @@
    The concrete executable model compared with the code on every run is Model/Index.v. *)
 From Coq Require Import List NArith ZArith Bool Permutation.
 From BE Require Import Model.Scan Model.Build Model.Cursor Proofs.ScanProof Proofs.BuildProof Proofs.Glue Proofs.CursorProof Proofs.Refine Proofs.ConcreteScan.
-From BE Require Model.Index Gen.IdsGen.
+From BE Require Model.GoVal Model.Parsers Model.Index Gen.IdsGen Proofs.RoaringProof Proofs.IndexBuildInv Proofs.IndexCorrect.
 Import ListNotations.
 Local Open Scope N_scope.
 
@@ -44,6 +44,50 @@ Theorem C01_new_cursors_related : forall ls, ls <> [] -> Forall sortedN ls ->
   Rel (new_fcursor ls) (sort_stream (map dec (concat ls))).
 Proof. exact Rel_new. Qed.
 
+(* END TO END over the executable model (Model/Index.v), fields in the default container, any parser
+   configuration: for ANY document set with distinct ids accepted by the k-groups builder (any number of
+   documents / conjunctions / expressions per field, any ids in range, any insertion order) and ANY
+   assignment whose values parse, the concrete retrieval (per-k cursor construction, galloping SkipTo,
+   the scan loop with its fuel, translated id codecs) succeeds and reports, once each, exactly the
+   conjunctions satisfied in the sense of the property:
+     conj_sat parsers q cj  :=  for every field f of cj, with ids = the parsed values assigned to f
+        (none when f is missing or nil):  no exclude expression of cj on f has a parsed value among ids,
+        and if cj has include expressions on f one of them has.
+   (`pol <> PolSkip \/ all conjunctions parse`: under Skip an unparseable conjunction is accepted but
+   not indexed -- that case is C08's.) *)
+Theorem C01_kgroups_index_exact : forall pol thr parsers ds st os q,
+  Index.add_documents false (Index.new_builder Index.IKGroups pol thr parsers) ds = (st, os) ->
+  Forall (eq Index.AddOk) os -> NoDup (map Index.d_id ds) ->
+  (forall d cj, In d ds -> In cj (Index.d_conjs d) -> NoDup (map fst cj)) ->
+  (pol <> Index.PolSkip \/ forall d cj, In d ds -> In cj (Index.d_conjs d) -> IndexBuildInv.conj_ok parsers cj = true) ->
+  NoDup (map fst q) ->
+  (forall f v, In (f, v) q -> exists ids, Parsers.parse_assign (parsers f) v = GoVal.POk ids) ->
+  exists hits,
+    Index.retrieve_kgroups_hits (Index.build_index st) q = Index.ROk hits /\
+    NoDup (map snd hits) /\
+    (forall d k cj cid, IndexCorrect.has_conj ds d k cj cid ->
+       (In cid (map snd hits) <-> IndexCorrect.conj_sat parsers q cj = true)) /\
+    (forall h, In h hits -> fst h = IdsGen.ConjID_DocID (snd h) /\
+                            exists d k cj, IndexCorrect.has_conj ds d k cj (snd h)).
+Proof. exact IndexCorrect.kgroups_index_correct. Qed.
+
+(* ... and on documents: Retrieve returns exactly the ids of the documents having a satisfied conjunction *)
+Theorem C01_kgroups_documents_exact : forall pol thr parsers ds st os q,
+  Index.add_documents false (Index.new_builder Index.IKGroups pol thr parsers) ds = (st, os) ->
+  Forall (eq Index.AddOk) os -> NoDup (map Index.d_id ds) ->
+  (forall d cj, In d ds -> In cj (Index.d_conjs d) -> NoDup (map fst cj)) ->
+  (pol <> Index.PolSkip \/ forall d cj, In d ds -> In cj (Index.d_conjs d) -> IndexBuildInv.conj_ok parsers cj = true) ->
+  NoDup (map fst q) ->
+  (forall f v, In (f, v) q -> exists ids, Parsers.parse_assign (parsers f) v = GoVal.POk ids) ->
+  exists docs,
+    Index.retrieve (Index.build_index st) q = Index.ROk docs /\
+    (forall d, In d ds ->
+       (In (Index.d_id d) docs <-> exists cj, In cj (Index.d_conjs d) /\ IndexCorrect.conj_sat parsers q cj = true)) /\
+    (forall z, In z docs -> exists d, In d ds /\ z = Index.d_id d).
+Proof. intros pol thr parsers. exact (IndexCorrect.retrieve_docs_correct Index.IKGroups pol thr parsers). Qed.
+
 Print Assumptions C01_kgroups_streams_exact.
+Print Assumptions C01_kgroups_index_exact.
+Print Assumptions C01_kgroups_documents_exact.
 Print Assumptions C01_concrete_kgroups_loop_exact.
 Print Assumptions C01_new_cursors_related.
